@@ -28,11 +28,16 @@ package ontology
 //@   theory strings
 //@   requires wfID(from)
 //@   atcall WherePrefix forall r Relationship :: wfRel(r) ==> (strings.HasPrefix(r.GorpKey(), string(prefix)) == (r.From == from))
+//@   # given that exact prefix, the table delete removes exactly the outgoing edges (gorp semantics, assumed)
+//@   trusted_ensures err == nil ==> (forall r Relationship :: SpecEdges[r] == (old(SpecEdges[r]) && r.From != from))
+//@   trusted_ensures forall x ID :: SpecNodes[x] == old(SpecNodes[x])
 //@   modifies *
 //@ func (d dagWriter) deleteIncomingRelationships(ctx context.Context, id ID) (err error)
 //@   theory strings
 //@   requires wfID(id)
 //@   atcall WhereRaw forall r Relationship :: wfRel(r) ==> (strings.HasSuffix(r.GorpKey(), string(suffix)) == (r.To == id))
+//@   trusted_ensures err == nil ==> (forall r Relationship :: SpecEdges[r] == (old(SpecEdges[r]) && r.To != id))
+//@   trusted_ensures forall x ID :: SpecNodes[x] == old(SpecNodes[x])
 //@   modifies *
 //@ func (d dagWriter) DeleteOutgoingRelationshipsOfType(ctx context.Context, from ID, relationshipType RelationshipType) (err error)
 //@   theory strings
@@ -81,3 +86,15 @@ package ontology
 //@   atcall NewCreate SpecNodes[from] && (forall i int :: 0 <= i && i < len(to) ==> SpecNodes[to[i]] && to[i] != from && !SpecReach(to[i], from))
 //@   modifies *
 //@   loop 0 invariant forall j int :: 0 <= j && j < __ri(0) ==> rels[j].To != from && !SpecReach(rels[j].To, from)
+
+//@ # no dangling edges: when DeleteResource gets as far as deleting the resource row, no stored
+//@ # relationship touches the resource any more
+//@ func (d dagWriter) DeleteResource(ctx context.Context, id ID) (err error)
+//@   requires wfID(id)
+//@   atcall NewDelete forall r Relationship :: SpecEdges[r] ==> r.From != id && r.To != id
+//@   modifies *
+//@ func (d dagWriter) DeleteManyResources(ctx context.Context, ids []ID) (err error)
+//@   requires forall i int :: 0 <= i && i < len(ids) ==> wfID(ids[i])
+//@   atcall NewDelete forall r Relationship :: SpecEdges[r] ==> (forall i int :: 0 <= i && i < len(ids) ==> r.From != ids[i] && r.To != ids[i])
+//@   modifies *
+//@   loop 0 invariant forall r Relationship :: SpecEdges[r] ==> (forall j int :: 0 <= j && j < __ri(0) ==> r.From != ids[j] && r.To != ids[j])
